@@ -787,6 +787,19 @@ theorem blake2_preset_eq_spec (P : Params W) (g : Good P) (nn : Nat) (key msg : 
   obtain ⟨c', h1, h2⟩ := Rel.update_finalize P g .wrapping _ _ _ _ msg nn hn.2 hr (fits_wrapping _ _)
   exact ⟨_, c', new_keyed_eq P nn key hn hk, h1, h2⟩
 
+/-- `Blake2x::<BITS>::new().update(msg).finalize()` for a BITS that is a multiple of 8 (the `context_finalize!` sizes) -/
+theorem blake2_fixed_eq_spec (P : Params W) (g : Good P) (pr : Profile) (BITS : Nat) (msg : Bytes)
+    (h8 : BITS % 8 = 0) (hn : 0 < BITS ∧ BITS / 8 ≤ P.maxOut) (hf : Fits W pr 0 msg.length) :
+    Impl.Blake2.hashing_blake2 P pr BITS msg = some (blake2 P (BITS / 8) [] msg) := by
+  have he : (BITS + 7) / 8 = BITS / 8 := by omega
+  have hn' : 0 < BITS ∧ (BITS + 7) / 8 ≤ P.maxOut := ⟨hn.1, by rw [he]; exact hn.2⟩
+  have := blake2_ctx_eq_spec P g pr BITS [] msg hn' (Nat.zero_le _) (by simpa using hf)
+  unfold Impl.Blake2.blake2_ctx at this
+  unfold Impl.Blake2.hashing_blake2 Impl.Blake2.Context.new Impl.Blake2.Context.finalize
+  rw [if_neg (by simpa [Impl.Blake2.Context.outlen] using hn')]
+  rw [← he]
+  exact this
+
 /-- refused parameters: exactly the arguments outside the RFC's domain, and never a value -/
 theorem blake2_dyn_refuses (P : Params W) (pr : Profile) (nn : Nat) (key msg : Bytes)
     (h : ¬ (0 < nn ∧ nn ≤ P.maxOut ∧ key.length ≤ P.maxKey)) :
